@@ -542,3 +542,14 @@ _add('C12', 'Props/C12More.lean (25 further theorems): serial_second_difference_
 # C07: the deterministic corollaries and the exact ROCA rates are theorems, the probabilistic main clause ("a healthy artefact is not
 # accused") is decided by exploration of the real checks only: the honest category is mixed (review finding F3)
 CATEGORY['C07'] = 'other'
+
+# ---- review findings F6 / F15 (bookkeeping): history and merge theorems
+_add('C13', 'FULL-STRENGTH HISTORY FORM (Props/C13History.lean, 11 theorems; the statements of Props/C13.lean speak of "the recorded list", which a Run that forgets earlier p-values would also satisfy — review finding F6): after any history of runs of a new TestStructure the list recorded under a name IS every p-value the runs returned under that name, in order (pvalues_are_history), '
+            'and a sub-test is FAILED iff CombinedPValue of ALL p-values it returned so far < fail level, PASSED iff not failed and CombinedPValue([repeat]*k) < that combination, UNDECIDED otherwise (state_rule, failed_iff_history, failed_rule; a name nothing was returned under has no state). finished after a run that returned a list iff none of the decisions made after each item of that list '
+            '(for the p-values of the item\'s name returned so far) was UNDECIDED and runs >= min_repetitions (finished_rule, no assumption on names); for results with pairwise different names — true of every registered test by inspection, not proved — this is "no sub-test of the last result UNDECIDED" (finished_rule_distinct_names); with a name repeated inside one result the real code asks for another repetition although the final state is PASSED (reproduced; conservative). '
+            'Each structure of TestSource is the history of its own test\'s outcomes in exactly the rounds in which it was unfinished, and TestSource / TestBitString return True iff some sub-test\'s returned p-values combine below the fail level (testSource_history, testBitString_history). A kernel-checked example shows a Run that forgets earlier p-values satisfies C13.state_rule but violates these. '
+            'Sentences 1-2 of C13: NOT proved, NOT modelled; search only (thorough tier and ./check C13 --search): the real TestSource restricted to the documented test on trunclcg32/64/128, lehmer128, lehmer128/16, java, mwc64/128/256 (FindBias, 2^16 bits), xorshift128+, xorwow (LargeBinaryMatrixRank 2^18), xorshift* (LargeBinaryMatrixRank 2^23), xorshift128+ (LinearComplexityScatter 2^22) must return True and '
+            'TestBitString on 2^20 bits of shake128 (pcg64, philox) must return False, for seeds drawn from VERIF_SEED; a miss is reported with the seed as failing input; nothing follows for other seeds or sizes.')
+_add('C16', 'PRE-ANNOTATED artefacts (Props/C16Merge.lean, 12 theorems; review finding F15): for ANY initial test_info (stale positive/negative entries of the same checks, foreign names, duplicate names, any order/weak flag/version), every list of checks with pairwise different names, every verdict oracle, after _CheckArtifacts / CheckAllRSA / CheckAllEC / CheckAllECDSASigs returned: every check that applies to the artefact has its entry = merge(old first entry of that name if any, this run\'s test_result) = (name, old.result OR new.result, max severity), '
+            'exactly one such entry unless the artefact came with duplicates (count = max 1 old; later duplicates untouched); entries of checks that do not apply and of every other name are untouched; names = old names in old order then the missing applicable check names in run order; weak = old weak OR some applicable check positive in this run (never cleared); paranoid_lib_version kept if non-empty (a re-run does NOT refresh it), else the library version iff some check applied '
+            '(preannotated_entries, registry_preannotated, checkAllRSA_preannotated / checkAllEC_preannotated / checkAllECDSASigs_preannotated). ./check C16 runs the real entry points twice on artefacts carrying each class of stale annotation and evaluates this clause on the protobufs (merge_pred, from the spied SetTestResult arguments) on every call.')
